@@ -3,6 +3,7 @@ package main
 // C11 — read-committed consumers never see aborted or control records (structural clauses).
 
 import (
+	"fmt"
 	"go/token"
 	"go/types"
 
@@ -235,17 +236,36 @@ func c11Rules(c *Ctx) {
 		srt := p.CallTo("sort.Slice", "sort.SliceStable")
 		it, path := reg.MustPrecede(srt, IsReturn())
 		okLess := false
+		detail := ""
 		for _, s := range reg.Find(srt) {
 			if less := p.closureArg(s, 1); less != nil {
-				Info(less).Each(func(it Item) {
-					if bo, ok := it.In.(*ssa.BinOp); ok && bo.Op == token.LSS && FieldLoad("AbortedTransaction.FirstOffset")(bo.X) && FieldLoad("AbortedTransaction.FirstOffset")(bo.Y) {
-						okLess = true
+				// the comparator is interpreted over every combination of orderings of the fields it compares
+				// (comparator.go): it must say "less" whenever FirstOffset is smaller, "not less" whenever it is
+				// larger, and never both ways round
+				m := buildCmpModel(less)
+				key := ""
+				for _, f := range m.fields {
+					if f == firstOffsetField(p) {
+						key = f
 					}
-				})
+				}
+				if key == "" {
+					detail = "the comparator does not compare FirstOffset of the two elements"
+					continue
+				}
+				bad, undecided := m.primaryKeyViolations(key)
+				switch {
+				case undecided:
+					detail = "the comparator is outside the interpretable fragment (comparisons of corresponding fields combined with && / ||)"
+				case len(bad) > 0:
+					detail = "for the ordering " + bad[0] + fmt.Sprintf(" (%d such combinations)", len(bad))
+				default:
+					okLess = true
+				}
 			}
 		}
-		c.Check(it.IsZero() && okLess, "C11.sorted", g, "sorted-by-first-offset", nil, "aborted index sorted ascending by FirstOffset before use",
-			"the aborted-transaction index is returned unsorted (or sorted on another key): entries are activated out of order and aborted data leaks", path)
+		c.Check(it.IsZero() && okLess, "C11.sorted", g, "sorted-by-first-offset", nil, "aborted index sorted ascending by FirstOffset before use (comparator evaluated over all field orderings)",
+			"the aborted-transaction index is returned unsorted, or its comparator is not an ordering by FirstOffset first ("+detail+"): parseResponse stops at the first entry beyond the batch, so an entry sorted behind a later one is activated too late and aborted records are delivered", path)
 	}
 	// parseResponse must take the index from getAbortedTransactions
 	usesSorted := hasItem(fn, p.CallTo("FetchResponseBlock.getAbortedTransactions"))
@@ -258,4 +278,20 @@ func c11Rules(c *Ctx) {
 		st := Info(f).Find(StoreTo(iso, "FetchRequest.Isolation"))
 		c.Check(len(st) > 0, "C11.request", f, "isolation-in-request", nil, "request.Isolation ← conf.Consumer.IsolationLevel", "the configured isolation level is not sent with the fetch request: the broker returns no aborted index", nil)
 	}
+}
+
+// firstOffsetField: the comparator model names fields by index path; FirstOffset is field #1 of AbortedTransaction.
+func firstOffsetField(p *Program) string {
+	obj := p.Sarama.Pkg.Scope().Lookup("AbortedTransaction")
+	if obj == nil {
+		return "#1"
+	}
+	if st, ok := obj.Type().Underlying().(*types.Struct); ok {
+		for i := 0; i < st.NumFields(); i++ {
+			if st.Field(i).Name() == "FirstOffset" {
+				return fmt.Sprintf("#%d", i)
+			}
+		}
+	}
+	return "#1"
 }
